@@ -311,6 +311,9 @@ func (wf *Workflow) runProcs(procs map[string]WorkflowProcess) {
 	}
 
 	for _, proc := range procs {
+		if proc == wf.driver {
+			continue // The driver is run in the main go-routine below
+		}
 		Debug.Printf(wf.name+": Starting process (%s) in new go-routine", proc.Name())
 		go proc.Run()
 	}
